@@ -145,6 +145,9 @@ def _outline_glyphs(font):
 
 
 def run(report, tier, only=None):
+    from vmc.oracles import selftest
+
+    selftest.run(report)
     k = int(only) if only and only.isdigit() else K[tier]
     devs, results = ([], []) if only == "cli" else lattice.explore(report, DIMS, k, execute, relevant=scenes.relevant, timeout=300)
     if only is None or only == "cli":
